@@ -558,6 +558,11 @@ class SetOp(Op):
 
                     plain_ok = isinstance(r, (set, frozenset)) or (isinstance(r, cabc.Set) and not isinstance(r, w.g.util.SetWrapper))
                     out.value = ["plain" if plain_ok else "notplain:" + type(r).__name__, canon_elems(w, r)]
+                    # the caller owns a returned plain value and may do anything with it; if it aliases
+                    # the collection's private storage the per-step scans will show it
+                    if isinstance(r, set) and op.get("scribble", True):
+                        r.clear()
+                        w.counters["probe:returned_value_scribbled"] += 1
                 elif meth == "iter":
                     out.value = canon_elems(w, r)
                 else:
@@ -859,6 +864,10 @@ class ListOp(Op):
                 elif meth in ("getslice", "iter", "reversed"):
                     plain_ok = type(r) is list
                     out.value = ["plain" if plain_ok else "notplain:" + type(r).__name__, [w.L(x) for x in r]]
+                    if meth == "getslice" and type(r) is list:
+                        # the returned list is the caller's: emptying it must not touch ir.modules
+                        del r[:]
+                        w.counters["probe:returned_value_scribbled"] += 1
                 else:
                     out.value = r
         return out
